@@ -217,7 +217,8 @@ class DropIn(Monitor):
         from sigtools import _signatures
         ctx.count('C14.menageries')
         partners = [('None', None), ('0', 0), ("'s'", 's'), ('object()', object()), ('plain twin', twin),
-                    ('itself', value)]
+                    ('itself', value), ('an object that claims to equal anything', Anything()),
+                    ('an object whose __eq__ says NotImplemented', Undecided())]
         try:
             partners.append(('upgraded copy', value.replace()))
             partners.append(('plain, other return annotation', twin.replace(return_annotation='other-ret')))
@@ -250,7 +251,9 @@ class DropIn(Monitor):
         self.compare_all('signature', value, twin, partners, w)
         # the same for the parameters
         for p, t in list(zip(value.parameters.values(), twin.parameters.values()))[:3]:
-            pp = [('None', None), ('0', 0), ('plain twin', t), ('itself', p)]
+            pp = [('None', None), ('0', 0), ('plain twin', t), ('itself', p),
+                  ('an object that claims to equal anything', Anything()),
+                  ('an object whose __eq__ says NotImplemented', Undecided())]
             try:
                 pp.append(('upgraded copy', p.replace()))
                 pp.append(('plain renamed', t.replace(name='renamed_')))
@@ -290,9 +293,36 @@ class DropIn(Monitor):
             if 'other' in label or 'renamed' in label:
                 if e1:
                     self.V(what + '-eq-ignores-difference', 'an upgraded %s equals %s' % (what, label), w)
+            if label.startswith('an object'):
+                # foreign objects with an __eq__ of their own: the upgraded object answers like its plain twin
+                try:
+                    t1 = (twin == y)
+                except Exception:
+                    t1 = None
+                if t1 is not None and t1 != e1:
+                    self.V(what + '-eq-differs-from-plain-twin', 'x == y is %r but the plain twin gives %r for y = %s' % (e1, t1, label), w)
+                continue
             if e1 and hx and hashable(y):
                 if hash(x) != hash(y):
                     self.V(what + '-hash-inconsistent', 'x == y but hash(x) != hash(y) for y = %s' % label, w)
+
+
+class Anything(object):
+    """like unittest.mock.ANY"""
+    def __eq__(self, other):
+        return True
+
+    def __ne__(self, other):
+        return False
+
+    __hash__ = object.__hash__
+
+
+class Undecided(object):
+    def __eq__(self, other):
+        return NotImplemented
+
+    __hash__ = object.__hash__
 
 
 def zip_shapes(sp):
